@@ -43,6 +43,7 @@ func mustLoad(repo string) *Prog {
 		fmt.Fprintln(os.Stderr, "contracts:", err)
 		os.Exit(2)
 	}
+	loadJSON("/verif/known_findings.json", &P.findings)
 	fmt.Fprintf(os.Stderr, "loaded %s in %.1fs; %d contracts\n", repo, time.Since(t0).Seconds(), len(P.contracts))
 	return P
 }
